@@ -19,7 +19,7 @@ def setup():
 
 N = 3
 
-CTORS = ["makeField", "Field", "from_raw_anyarray", "multifield", "sum", "scaled", "makeField_2d"]
+CTORS = ["makeField", "Field", "from_raw_anyarray", "multifield", "sum", "scaled", "makeField_2d", "from_raw_0d", "makeField_0d"]
 
 
 class _Sub(np.ndarray):
@@ -53,6 +53,11 @@ def _construct(B, ctor, vals):
     if ctor == "scaled":
         g = ift.makeField(dom, a)
         return 3 * g, None, [3 * v for v in vals]
+    if ctor in ("from_raw_0d", "makeField_0d"):      # a zero-dimensional source array on the scalar domain
+        sdom = ift.DomainTuple.scalar_domain()
+        a0 = _arr(B, vals[0]).reshape(())
+        f0 = ift.Field.from_raw(sdom, a0) if ctor == "from_raw_0d" else ift.makeField(sdom, a0)
+        return f0, a0, [vals[0]]
     if ctor == "makeField_2d":
         dom2 = ift.RGSpace((N, 1))
         a2 = a.reshape((N, 1))
@@ -150,7 +155,7 @@ def h_history(B, ctor, rounds, chain, root=None):
     f, src, expected = _construct(B, ctor, vals)
     x = list(B.reals("x", (N,)))
     D, M = _derivations(), _mutations()
-    fx = ift.makeField(f.domain, _arr(B, x, f.shape))
+    fx = ift.makeField(f.domain, _arr(B, x[:f.size], f.shape))
     op0 = [np.array(o.val.val, dtype=object if B.mode == "sym" else np.float64, copy=True).reshape(-1) for o in _observe_ops(f, fx)]
     roots = [("field", f)] + ([("source array", src)] if src is not None else [])
     if root is not None:
@@ -218,7 +223,7 @@ OPTS = {"quick": {"max_paths": 3000, "budget_s": 600, "jobs": 8, "branch_timeout
 
 META = {
     "level": "other",
-    "explanation": "Bounded history exploration of the real Field/AnyArray API on arrays of symbolic reals: constructor (7 kinds) x "
+    "explanation": "Bounded history exploration of the real Field/AnyArray API on arrays of symbolic reals: constructor (9 kinds incl. zero-dimensional sources) x "
                    "rounds of [root handle (field or the source array) -> chain of handle derivations (25 kinds: val, raw, asnumpy, "
                    "views, slices, reshape, astype(copy=False), re-wrapping, ...) -> mutation attempt (21 kinds: item/slice assignment, "
                    "in-place operators, fill, copyto, put, ufunc out=, on ndarray / AnyArray / Field handles)]; every choice is a "
